@@ -15,13 +15,16 @@
     `chain_from_separated` (the token chain derived from the syntactic `Spec.separated`);
     `family_roundtrip` (+ `_date`, `_time`, `_naive`, `_zoned`): parse ∘ format =
     `truncate_to_precision`, composed with C14's `date_complete`, `time_complete`,
-    `datetime_complete_fields`.
-  Not proved (compared with the crate and checked by the round-trip oracle only): `%+`, timestamp-only
-  formats, and the other members listed in the docstring of `family_roundtrip_partial`.
+    `datetime_complete_fields`;
+  * third stage: `family_roundtrip_timestamp_naive` / `_zoned` (formats that carry the instant only as
+    a timestamp: `%s`, `%s %z`, `%s%:z`, `%z %s`), composed with C14's `datetime_complete_timestamp` /
+    `to_datetime_complete_timestamp`; they are part of `family_roundtrip`.
+  Not proved (compared with the crate and checked by the round-trip oracle only): `%+` and the other
+  members listed in the docstring of `family_roundtrip_partial`.
   Concrete parser runs cannot be closed by `decide`: `Scan.number` is defined by mutual (well-founded)
   recursion, which the kernel does not unfold; the examples go through the theorems instead.
 -/
-import Chrono.Proofs.RoundTripFamilyL
+import Chrono.Proofs.RoundTripStampL
 import Chrono.Spec.UnambiguousSpec
 import Chrono.Extracted.ParseTable
 
@@ -280,8 +283,6 @@ are compared with the crate, checked by the round-trip oracle and by the validat
 specification `pf.sp`):
 * `%+` (the RFC 3339 item: its reader is `parse_rfc3339_relaxed`, for which there is no item lemma;
   C10's round trip is about the strict `parse_from_rfc3339`);
-* formats that carry the instant only as a timestamp (`%s` alone, `%s %z`) for `NaiveDateTime` /
-  `DateTime`: C14 has no completeness theorem for the resolver's timestamp fall-back path;
 * white-space items of the *format* that contain non-ASCII white space, a fraction item directly after
   a white-space item, the `Z`-printing offset items (no specifier produces them);
 * zone-aware values whose local reading leaves the supported range;
@@ -456,22 +457,68 @@ theorem family_roundtrip_zoned (fmt : List Nat) (z : Zoned) (Y : Int) (o : Nat) 
   obtain ⟨p', h1, h2⟩ := family_zoned _ z Y o hvd t htv hl hzo text hp hU hfd hft hot hsafe hE hfmt
   exact parse_from_str_of .zoned fmt text p' _ h1 (h2 v' hv')
 
+/-- **timestamp-only formats, `NaiveDateTime`** (`%s`, with literals and white space;
+`Spec.stampOnly`: the items carry a timestamp and no date, time or fraction field):
+`NaiveDateTime::parse_from_str(&v.format(fmt).to_string(), fmt) == Ok(v truncated to whole seconds)`,
+for every value — negative timestamps (before 1970) included; a leap second is read back as its
+second :59.  Rests on C14's `datetime_complete_timestamp` (completeness of the resolver's timestamp
+fall-back path) and on `item_inverts_timestamp`. -/
+theorem family_roundtrip_timestamp_naive (fmt : List Nat) (Y : Int) (o : Nat) (hvd : VD Y o) (t : Time)
+    (htv : TValid t) (text : List Nat) (hp : ∀ it ∈ Strftime.items fmt, provedItem it = true)
+    (hU : Unambiguous (Strftime.items fmt) .naive) (hso : stampOnly (carries (Strftime.items fmt)) = true)
+    (hsafe : spaceSafe (Strftime.items fmt) = true)
+    (hE : expressible (Strftime.items fmt) (.naive ⟨dateOfYo Y o, t⟩))
+    (hfmt : format (.naive ⟨dateOfYo Y o, t⟩) fmt = Format.wok text) :
+    parse_from_str .naive text fmt = .ok (.ok (.naive ⟨dateOfYo Y o, ⟨t.secs, 0⟩⟩)) ∧
+    truncate_to_precision (Strftime.items fmt) (.naive ⟨dateOfYo Y o, t⟩) =
+      some (.naive ⟨dateOfYo Y o, ⟨t.secs, 0⟩⟩) := by
+  obtain ⟨p', h1, h2⟩ := family_stamp_naive _ Y o hvd t htv text hp hU hso hsafe hE hfmt
+  refine ⟨parse_from_str_of .naive fmt text p' _ h1 h2, ?_⟩
+  simp only [truncate_to_precision, stampOnly_not_fields _ hso, Bool.false_eq_true, if_false]
+
+/-- **timestamp-only formats, `DateTime<FixedOffset>`** (`%s`, `%s %z`, `%s%:z`, `%z %s`, with
+literals and white space): the result is what `Spec.truncate_to_precision` says — the instant at whole
+seconds, at the printed (minute-rounded) offset, or at UTC when the format has no offset item —
+whenever the wall clock of that instant at that offset exists (always for `%s` alone and for
+whole-minute offsets) -/
+theorem family_roundtrip_timestamp_zoned (fmt : List Nat) (z : Zoned) (hu : Chrono.Spec.NDTInv z.utc)
+    (Y : Int) (o : Nat) (hvd : VD Y o) (t : Time) (htv : TValid t)
+    (hl : z.overflowing_naive_local = .ok ⟨dateOfYo Y o, t⟩)
+    (hzo : -86400 < z.off ∧ z.off < 86400) (text : List Nat)
+    (hp : ∀ it ∈ Strftime.items fmt, provedItem it = true) (hU : Unambiguous (Strftime.items fmt) .zoned)
+    (hso : stampOnly (carries (Strftime.items fmt)) = true)
+    (hsafe : spaceSafe (Strftime.items fmt) = true) (hE : expressible (Strftime.items fmt) (.zoned z))
+    (hfmt : format (.zoned z) fmt = Format.wok text) (v' : Value)
+    (hv' : truncate_to_precision (Strftime.items fmt) (.zoned z) = some v') :
+    parse_from_str .zoned text fmt = .ok (.ok v') := by
+  obtain ⟨p', h1, h2⟩ := family_stamp_zoned _ z hu Y o hvd t htv hl hzo text hp hU hso hsafe hE hfmt
+  exact parse_from_str_of .zoned fmt text p' _ h1 (h2 v' hv')
+
+/-- what `truncate_to_precision` is for a timestamp-only format and a zone-aware value: the UTC reading
+at whole seconds, at the printed offset (0 without an offset item), provided its wall clock exists -/
+theorem truncate_timestamp_zoned (is : List Item) (z : Zoned) (hso : stampOnly (carries is) = true) :
+    truncate_to_precision is (.zoned z) =
+      match (⟨⟨z.utc.date, ⟨z.utc.time.secs, 0⟩⟩,
+          if (carries is).offset = true then roundedOffset z.off else 0⟩ : Zoned).naive_local with
+      | .ok _ => some (.zoned ⟨⟨z.utc.date, ⟨z.utc.time.secs, 0⟩⟩,
+          if (carries is).offset = true then roundedOffset z.off else 0⟩)
+      | .panic => none := by
+  simp only [truncate_to_precision, stampOnly_not_fields _ hso, Bool.false_eq_true, if_false]
+  cases (⟨⟨z.utc.date, ⟨z.utc.time.secs, 0⟩⟩,
+    if (carries is).offset = true then roundedOffset z.off else 0⟩ : Zoned).naive_local <;> rfl
+
 /-- **`family_roundtrip`** for the proved part of the family, all four target types in one statement:
 `parse_from_str(format(v)) = Ok(truncate_to_precision(v))`.  `ValueOk` collects the value invariants
-(existing day, valid time, offset inside ±24 h, local reading in range), `FieldsForm` says the format
-has the date/time fields its target needs (as opposed to a lone timestamp). -/
+(existing day, valid time, valid UTC reading, offset inside ±24 h, local reading in range);
+`Spec.Unambiguous` says that the format either has the date/time fields its target needs or is a
+timestamp-only format (`Spec.stampOnly`). -/
 theorem family_roundtrip (fmt : List Nat) (v : Value) (text : List Nat) (v' : Value)
     (hv : match v with
       | .date d => ∃ Y o, VD Y o ∧ d = dateOfYo Y o
       | .time t => TValid t
       | .naive dt => (∃ Y o, VD Y o ∧ dt.date = dateOfYo Y o) ∧ TValid dt.time
-      | .zoned z => ∃ Y o t, VD Y o ∧ TValid t ∧ z.overflowing_naive_local = .ok ⟨dateOfYo Y o, t⟩ ∧
-          -86400 < z.off ∧ z.off < 86400)
-    (hform : match v with
-      | .date _ | .time _ => True
-      | .naive _ => fullDate (carries (Strftime.items fmt)) = true ∧ fullTime (carries (Strftime.items fmt)) = true
-      | .zoned _ => fullDate (carries (Strftime.items fmt)) = true ∧ fullTime (carries (Strftime.items fmt)) = true ∧
-          ((carries (Strftime.items fmt)).offset = true ∨ (carries (Strftime.items fmt)).timestamp = true))
+      | .zoned z => Chrono.Spec.NDTInv z.utc ∧ ∃ Y o t, VD Y o ∧ TValid t ∧
+          z.overflowing_naive_local = .ok ⟨dateOfYo Y o, t⟩ ∧ -86400 < z.off ∧ z.off < 86400)
     (hp : ∀ it ∈ Strftime.items fmt, provedItem it = true) (hU : Unambiguous (Strftime.items fmt) v.target)
     (hsafe : spaceSafe (Strftime.items fmt) = true) (hE : expressible (Strftime.items fmt) v)
     (hfmt : format v fmt = Format.wok text)
@@ -489,11 +536,16 @@ theorem family_roundtrip (fmt : List Nat) (v : Value) (text : List Nat) (v' : Va
     obtain ⟨⟨Y, o, hvd, hd⟩, htv⟩ := hv
     obtain ⟨d, t⟩ := dt
     simp only at hd htv; subst hd
-    obtain ⟨h1, h2⟩ := family_roundtrip_naive fmt Y o hvd t htv text hp hU hform.1 hform.2 hsafe hE hfmt
-    rw [h2] at hv'; cases hv'; exact h1
+    rcases hU.2.2.2.2 with hform | hso
+    · obtain ⟨h1, h2⟩ := family_roundtrip_naive fmt Y o hvd t htv text hp hU hform.1 hform.2 hsafe hE hfmt
+      rw [h2] at hv'; cases hv'; exact h1
+    · obtain ⟨h1, h2⟩ := family_roundtrip_timestamp_naive fmt Y o hvd t htv text hp hU hso hsafe hE hfmt
+      rw [h2] at hv'; cases hv'; exact h1
   | zoned z =>
-    obtain ⟨Y, o, t, hvd, htv, hl, hzo⟩ := hv
-    exact family_roundtrip_zoned fmt z Y o hvd t htv hl hzo text hp hU hform.1 hform.2.1 hform.2.2 hsafe hE hfmt v' hv'
+    obtain ⟨hu, Y, o, t, hvd, htv, hl, hzo⟩ := hv
+    rcases hU.2.2.2.2 with hform | hso
+    · exact family_roundtrip_zoned fmt z Y o hvd t htv hl hzo text hp hU hform.1.1 hform.1.2 hform.2 hsafe hE hfmt v' hv'
+    · exact family_roundtrip_timestamp_zoned fmt z hu Y o hvd t htv hl hzo text hp hU hso hsafe hE hfmt v' hv'
 
 /-! ## items outside the family -/
 
@@ -595,6 +647,68 @@ example (Y : Int) (o : Nat) (hvd : VD Y o) (text : List Nat)
     · exact absurd h (by decide)
     · exact absurd h (by decide)
   · intro h; rw [hc] at h; cases h
+
+/-- `family_roundtrip_timestamp_naive` applies to *every* `NaiveDateTime` with `%s` (negative
+timestamps, leap seconds and sub-second parts included): the result is the value at whole seconds -/
+example (Y : Int) (o : Nat) (hvd : VD Y o) (t : Time) (htv : Chrono.Spec.TValid t)
+    (hleap : 1000000000 ≤ t.frac → t.secs % 60 = 59) (text : List Nat)
+    (hfmt : format (.naive ⟨dateOfYo Y o, t⟩) [37, 115] = Format.wok text) :
+    parse_from_str .naive text [37, 115] = .ok (.ok (.naive ⟨dateOfYo Y o, ⟨t.secs, 0⟩⟩)) := by
+  have hi : Strftime.items [37, 115] = [.numeric .timestamp .none] := by decide +kernel
+  refine (family_roundtrip_timestamp_naive _ Y o hvd t htv text (by rw [hi]; decide) (by rw [hi]; decide)
+    (by rw [hi]; decide) (by rw [hi]; decide) ?_ hfmt).1
+  rw [hi]
+  obtain ⟨w, hw⟩ := Chrono.Proofs.ParsedRes.iso_week_ok Y o hvd
+  have hc : carries [.numeric .timestamp .none] = { timestamp := true } := by decide
+  refine ⟨?_, ?_, trivial, ?_, ?_⟩
+  · simp only [exprYears, shown, onSome, onOk, hw, hc]
+    refine ⟨⟨fun _ _ h => (by cases h), fun h => (by cases h), fun h => (by cases h), fun h => ?_⟩,
+      ⟨fun _ _ h => (by cases h), fun h => (by cases h), fun h => (by cases h), fun h => ?_⟩⟩
+    · exact absurd h (by decide)
+    · exact absurd h (by decide)
+  · simpa [exprLeap, shown, onSome] using hleap
+  · intro _ h; rw [hc] at h; exact absurd h (by decide)
+  · simp only [exprFrac, shown, onSome]
+    intro it hm
+    simp only [List.mem_cons, List.not_mem_nil, or_false] at hm
+    subst hm
+    simp [itemFracDigits]
+
+/-- `family_roundtrip_timestamp_zoned` applies to *every* `DateTime<FixedOffset>` with a whole-minute
+offset and `%s %z`: the result is the same instant at whole seconds at the same offset -/
+example (z : Zoned) (hu : Chrono.Spec.NDTInv z.utc) (Y : Int) (o : Nat) (hvd : VD Y o) (t : Time)
+    (htv : Chrono.Spec.TValid t) (hleap : 1000000000 ≤ t.frac → t.secs % 60 = 59)
+    (hl : z.overflowing_naive_local = .ok ⟨dateOfYo Y o, t⟩) (hzo : -86400 < z.off ∧ z.off < 86400)
+    (hmin : z.off % 60 = 0) (l' : NaiveDT)
+    (hnl : (⟨⟨z.utc.date, ⟨z.utc.time.secs, 0⟩⟩, z.off⟩ : Zoned).naive_local = .ok l') (text : List Nat)
+    (hfmt : format (.zoned z) [37, 115, 32, 37, 122] = Format.wok text) :
+    parse_from_str .zoned text [37, 115, 32, 37, 122] =
+      .ok (.ok (.zoned ⟨⟨z.utc.date, ⟨z.utc.time.secs, 0⟩⟩, z.off⟩)) := by
+  have hi : Strftime.items [37, 115, 32, 37, 122] =
+      [.numeric .timestamp .none, .space [32], .fixed .timezoneOffset] := by decide +kernel
+  have hc : carries [.numeric .timestamp .none, .space [32], .fixed .timezoneOffset] =
+      { timestamp := true, offset := true } := by decide
+  have hro := rounded_of_whole z.off hmin
+  refine family_roundtrip_timestamp_zoned _ z hu Y o hvd t htv hl hzo text (by rw [hi]; decide)
+    (by rw [hi]; decide) (by rw [hi]; decide) (by rw [hi]; decide) ?_ hfmt _ ?_
+  · rw [hi]
+    obtain ⟨w, hw⟩ := Chrono.Proofs.ParsedRes.iso_week_ok Y o hvd
+    refine ⟨?_, ?_, ?_, ?_, ?_⟩
+    · simp only [exprYears, shown, hl, onSome, onOk, hw, hc]
+      refine ⟨⟨fun _ _ h => (by cases h), fun h => (by cases h), fun h => (by cases h), fun h => ?_⟩,
+        ⟨fun _ _ h => (by cases h), fun h => (by cases h), fun h => (by cases h), fun h => ?_⟩⟩
+      · exact absurd h (by decide)
+      · exact absurd h (by decide)
+    · simpa [exprLeap, shown, hl, onSome] using hleap
+    · simp only [exprOffset, shown, hl, onSome]
+      intro _; rw [hro]; exact hzo
+    · intro _ h; rw [hc] at h; exact absurd h (by decide)
+    · simp only [exprFrac, shown, hl, onSome]
+      intro it hm
+      simp only [List.mem_cons, List.not_mem_nil, or_false] at hm
+      rcases hm with rfl | rfl | rfl <;> simp [itemFracDigits]
+  · rw [truncate_timestamp_zoned _ _ (by rw [hi]; decide), hi, hc]
+    simp only [if_true, hro, hnl]
 
 /-- the same for every valid time of day with `%H:%M:%S%.f` (leap second `60` and every fraction) -/
 example (t : Time) (htv : Chrono.Spec.TValid t) (hleap : 1000000000 ≤ t.frac → t.secs % 60 = 59) (text : List Nat)
